@@ -407,6 +407,21 @@ func eqGen(g *G, tier string) []M {
 			p, _ := g.perturb(base)
 			ops = append(ops, M{"op": "equalNode", "n": base, "m": p, "kind": "perturbed"})
 		case 2:
+			if g.Chance(0.3) {
+				// dates compare to the second: the same instant with another sub-second part is the same value
+				at, _ := base["a"].(M)
+				if at == nil {
+					at = M{}
+					base["a"] = at
+				}
+				fld := g.Pick([]string{"ReleaseDate", "BuildDate", "ValidUntilDate"})
+				secs := float64(g.Pick2([]int{0, 1, 1700000000, 1700086400}))
+				at[fld] = []any{secs, float64(g.Pick2([]int{0, 1, 500, 500000000}))}
+				other := g.permuteNode(base)
+				other["a"].(M)[fld] = []any{secs, float64(g.Pick2([]int{0, 999, 70000, 999999999}))}
+				ops = append(ops, M{"op": "equalNode", "n": base, "m": other, "kind": "permuted"})
+				break
+			}
 			ops = append(ops, M{"op": "equalNode", "n": base, "m": g.permuteNode(base), "kind": "permuted"})
 		case 3:
 			ops = append(ops, M{"op": "equalNode", "n": base, "m": g.Node(asStr(base["id"]), 0.3), "kind": "random"})
@@ -904,6 +919,22 @@ func diffGen(g *G, tier string) []M {
 	for i := 0; i < n; i++ {
 		base := g.Node(g.Pick(idPoolAll), []float64{0.1, 0.3, 0.6, 0.9}[g.Int(4)])
 		var other M
+		if g.Chance(0.04) {
+			// two nodes that differ in two scalar attributes but flatten to the same string (a value
+			// that contains the separator and the next field's name): Diff compares attribute by
+			// attribute and must still report them
+			id := g.Pick(idPoolAll)
+			x, y := g.Pick([]string{"a", "x y", "1.0"}), g.Pick([]string{"b", "z", "2"})
+			pair := [][2]string{{"Comment", "copyright"}, {"Name", "summary"}, {"Description", "file_name"}}[g.Int(3)]
+			second := map[string]string{"copyright": "Copyright", "summary": "Summary", "file_name": "FileName"}[pair[1]]
+			base = M{"id": id, "type": 0.0, "a": M{pair[0]: x, second: y}}
+			other = M{"id": id, "type": 0.0, "a": M{pair[0]: x + ":protobom.protobom.Node." + pair[1] + ":" + y}}
+			if g.Chance(0.5) {
+				base, other = other, base
+			}
+			ops = append(ops, M{"op": "diff", "n": base, "m": other})
+			continue
+		}
 		switch g.Int(7) {
 		case 5:
 			// dates less than a second apart but in different seconds, and in the same second
